@@ -1,9 +1,18 @@
 #!/usr/bin/env bash
 # Build the whole framework from files on disk (offline). Run once after a fresh restore.
-set -eu
+# Packages are built one by one: several of them enable different (incompatible) feature sets of
+# the crates under /repo, which a single `--workspace` build would unify.
+set -u
 cd "$(dirname "$0")"
 export CARGO_NET_OFFLINE=true
 export CARGO_TERM_COLOR=never
 mkdir -p evidence replays work
-(cd engine && cargo build --workspace 2>&1 | tail -n 5)
-echo "setup done"
+rc=0
+for p in vcommon l1 l1y l1j5 l2 l0a l0b l0dyn; do
+  echo "building $p"
+  (cd engine && cargo build -q -p "$p" 2>&1 | tail -n 20) || rc=1
+done
+# dependencies of the generated crates (shared target dir under work/)
+./engine/target/debug/l2 warmup || rc=1
+echo "setup done (rc=$rc)"
+exit $rc
